@@ -7,6 +7,7 @@ usage: aggregate.py PROP TIER SEED OUTDIR WALL_S VERIF_DIR INSTRUMENT_JSON [extr
 import glob
 import json
 import os
+import re
 import sys
 
 
@@ -18,12 +19,12 @@ def main():
     props = json.load(open(os.path.join(verif, "hrsim", "props.json")))
     meta = props[prop]
     known = []
-    kf = os.path.join(verif, "known_findings.jsonl")
+    kf = os.path.join(verif, "KNOWN_FINDINGS.txt")
     if os.path.exists(kf):
         for line in open(kf):
-            line = line.strip()
-            if line and not line.startswith("#"):
-                known.append(json.loads(line))
+            m = re.match(r'^open: property=(\S+) signature="([^"]*)" :: (.*)$', line.strip())
+            if m:
+                known.append({"property": m.group(1), "signature": m.group(2), "status": "open", "what": m.group(3)})
     workers = []
     for p in sorted(glob.glob(os.path.join(outdir, "w*.json"))):
         workers.append(json.load(open(p)))
